@@ -16,7 +16,8 @@ from dsim import depth as DP
 PROPERTY = "C11"
 SRC_DIR = None      # filled by bin/check.py after boot
 KNOWN_PREDICATES = {}
-LEVEL_TEXT = ("Seeded search over interleavings: cooperative interleavings of 2-4 live iterators and queries on one cached rule/set in one thread, and 2-4 real threads pre-empted at every source line of rrule.py and at every lock operation by a seeded scheduler (random, pre-emption-bounded, PCT). Every yielded value and query answer is compared with the uncached twin's list; deadlock (no runnable task / re-acquire of a held simulated lock) and step-budget overrun are liveness violations. Sampling, not enumeration.")
+LEVEL_TEXT = ("Seeded search over interleavings: cooperative interleavings of 2-4 live iterators and queries on one cached rule/set in one thread, and 2-4 real threads pre-empted at every source line of rrule.py and at every lock operation by a seeded scheduler (random, pre-emption-bounded, PCT). Every yielded value and query answer is compared with the uncached twin's list; deadlock (no runnable task / re-acquire of a held simulated lock) and step-budget overrun are liveness violations. Sampling, not enumeration."
+    ' Session 3 added: calibrated pre-emption points (a dry run measures the schedule), aware datetimes, longer rules and more iterators/threads in the deep part of the thorough tier.')
 LEVEL_NOTE = ('Trusted: the uncached twin as reference (rule expansion itself is C01, not judged here); pre-emption at source-line granularity inside rrule.py only; CPython 3.12 sys.monitoring; SimLock models _thread.lock.')
 TECHNIQUE = ('deterministic simulation: seeded thread/iterator schedules over simulated locks, checked against a sequential list model')
 
